@@ -53,6 +53,13 @@ Fixpoint rr_loop (av : list bool) (n : N) (robin : N) (steps : nat) : option nat
 Definition rr_select (av : list bool) (robin : N) : option nat * N :=
   rr_loop av (N.of_nat (length av)) robin (length av).
 
+(* m consecutive Selects of one RoundRobin value *)
+Fixpoint rr_run (av : list bool) (robin : N) (m : nat) : list (option nat) :=
+  match m with
+  | O => []
+  | Datatypes.S k => let '(r, robin') := rr_select av robin in r :: rr_run av robin' k
+  end.
+
 (* Random: reservoir sampling over the available hosts with a stream of rand.Int() values *)
 Fixpoint reservoir (cands : list nat) (rs : list N) (count : N) (cur : option nat) : option nat :=
   match cands with
@@ -146,6 +153,179 @@ Definition buffered (nhosts : nat) (try_duration_nonzero : bool) : bool :=
 Definition attempt_body {A} (buf : bool) (body : list A) (consumed_before : nat) : list A :=
   if buf then body else skipn consumed_before body.
 
+(* ---- discrete-time model of the retry loop of Proxy.ServeHTTP (proxy.go) ----
+   Time is a natural number of ticks since `start := time.Now()`.  One loop iteration:
+     host := upstream.Select(r)                      -- any selector over the availability vector
+     host == nil            -> keepRetrying           (ENone)
+     !host.acquireConn()    -> keepRetrying           (ERefused: another request filled the host
+                                                       between Select and the increment)
+     backendErr = proxy.ServeHTTP(...)                (EAttempt, takes `adur` ticks)
+     nil -> return 0;  otherwise Fails++ (expires fail_timeout later, only if fail_timeout > 0)
+                        and keepRetrying
+   keepRetrying: `time.Since(start) >= try_duration` -> stop (502), else sleep try_interval.
+   The budget is measured ONLY there, i.e. after a failed attempt / a nil Select / a refusal.
+   The outcome of the k-th use of a host is scripted (fault sequence per host, with a default
+   for the tail).  The request body is buffered and rewound before every attempt iff
+   hosts > 1 && try_duration != 0; an unbuffered body is closed by the first attempt that runs
+   (RoundTripper contract), every later attempt that reads it gets nothing.  A scripted success
+   only succeeds if the complete body arrived (a backend does not answer a truncated upload). *)
+Inductive akind := KOk | KFailBefore | KFailAfter | KRefuse.
+Record astep := mk_astep { ak : akind; adur : N }.
+Record script := mk_script { spre : list astep; sdflt : astep }.
+Definition script_at (s : script) (k : nat) : astep := nth k (spre s) (sdflt s).
+Definition is_refuse (k : akind) : bool := match k with KRefuse => true | _ => false end.
+Definition is_ok (k : akind) : bool := match k with KOk => true | _ => false end.
+
+Record tcfg := mk_tcfg { t_n : nat; t_mf : N; t_ft : N; t_td : N; t_ti : N; t_hasbody : bool }.
+(* requiresBuffering := upstream.GetHostCount() > 1 && upstream.GetTryDuration() != 0 *)
+Definition t_buf (c : tcfg) : bool := Nat.ltb 1 (t_n c) && negb (t_td c =? 0).
+
+(* what a forward saw of the request body *)
+Inductive rxk := RxNotRead | RxFull | RxClosed | RxBad.
+Inductive tev :=
+| ENone (t : N)
+| ERefused (t : N) (i : nat)
+| EAttempt (t : N) (i : nat) (k : akind) (rx : rxk) (ok : bool) (te : N).
+Inductive tout := TAnswered (i : nat) (t : N) | T502 (t : N) | THang.
+
+Definition upd {A} (f : nat -> A) (i : nat) (v : A) : nat -> A :=
+  fun j => if Nat.eqb j i then v else f j.
+(* Fails of a host at time `now`: the failure records that have not expired yet *)
+Definition live (now : N) (l : list N) : N := N.of_nat (length (filter (fun x => now <? x) l)).
+
+Section RetryT.
+Variable S : Type.
+Variable sel : S -> list bool -> option nat * S.
+Variable c : tcfg.
+Variable unh : nat -> bool.               (* Unhealthy flag (health checker), per host *)
+Variable scr : nat -> script.             (* fault sequence per host *)
+Variable envdown : nat -> nat -> bool.    (* iteration -> host -> made unavailable by others (full / health flap) *)
+
+Definition t_avail (it : nat) (now : N) (fx : nat -> list N) : list bool :=
+  map (fun i => negb (unh i) && negb (envdown it i) && (live now (fx i) <? t_mf c)) (seq 0 (t_n c)).
+
+Definition keep (t : N) : option N := if t_td c <=? t then None else Some (t + t_ti c).
+
+Definition rx_of (k : akind) (fresh : bool) : rxk :=
+  match k with
+  | KFailBefore | KRefuse => RxNotRead
+  | _ => if negb (t_hasbody c) || t_buf c || fresh then RxFull else RxClosed
+  end.
+Definition att_ok (k : akind) (rx : rxk) : bool :=
+  match k, rx with KOk, RxFull => true | _, _ => false end.
+
+Fixpoint runT (fuel : nat) (now : N) (fx : nat -> list N) (cnt : nat -> nat) (st : S)
+         (fresh : bool) (it : nat) : tout * list tev :=
+  match fuel with
+  | O => (THang, [])
+  | Datatypes.S f =>
+    match sel st (t_avail it now fx) with
+    | (None, st') =>
+        match keep now with
+        | None => (T502 now, [ENone now])
+        | Some t' => let '(o, tr) := runT f t' fx cnt st' fresh (Datatypes.S it) in (o, ENone now :: tr)
+        end
+    | (Some i, st') =>
+        let a := script_at (scr i) (cnt i) in
+        let cnt' := upd cnt i (Datatypes.S (cnt i)) in
+        if is_refuse (ak a) then
+          match keep now with
+          | None => (T502 now, [ERefused now i])
+          | Some t' => let '(o, tr) := runT f t' fx cnt' st' fresh (Datatypes.S it) in
+                       (o, ERefused now i :: tr)
+          end
+        else
+          let rx := rx_of (ak a) fresh in
+          let ok := att_ok (ak a) rx in
+          let te := now + adur a in
+          let ev := EAttempt now i (ak a) rx ok te in
+          if ok then (TAnswered i te, [ev])
+          else
+            let fx' := if 0 <? t_ft c then upd fx i ((te + t_ft c) :: fx i) else fx in
+            match keep te with
+            | None => (T502 te, [ev])
+            | Some t' => let '(o, tr) := runT f t' fx' cnt' st' false (Datatypes.S it) in (o, ev :: tr)
+            end
+    end
+  end.
+End RetryT.
+
+(* bytes an attempt received, for a body of any type *)
+Definition rx_bytes {A} (body : list A) (rx : rxk) : option (list A) :=
+  match rx with RxNotRead => None | RxFull => Some body | RxClosed | RxBad => Some [] end.
+
+(* --- executable clauses, evaluated on a trace (the model's or the observed one) --- *)
+(* a host is only used while fewer than max_fails of its failures are unexpired *)
+Definition ev_fail_rec (ft : N) (acc : nat -> list N) (e : tev) : nat -> list N :=
+  match e with
+  | EAttempt _ i _ _ false te => if 0 <? ft then upd acc i ((te + ft) :: acc i) else acc
+  | _ => acc
+  end.
+Fixpoint skip_ok (mf ft : N) (acc : nat -> list N) (tr : list tev) : bool :=
+  match tr with
+  | [] => true
+  | e :: r =>
+      match e with
+      | EAttempt t i _ _ _ _ | ERefused t i => live t (acc i) <? mf
+      | ENone _ => true
+      end && skip_ok mf ft (ev_fail_rec ft acc e) r
+  end.
+(* every attempt that read the body read all of it *)
+Definition rx_good (rx : rxk) : bool := match rx with RxClosed | RxBad => false | _ => true end.
+Definition bodies_ok (tr : list tev) : bool :=
+  forallb (fun e => match e with EAttempt _ _ _ rx _ _ => rx_good rx | _ => true end) tr.
+Definition first_attempt_ok (tr : list tev) : bool :=
+  match filter (fun e => match e with EAttempt _ _ _ _ _ _ => true | _ => false end) tr with
+  | EAttempt _ _ _ rx _ _ :: _ => rx_good rx
+  | _ => true
+  end.
+(* the final status against the last event *)
+Definition answered_ok (n : nat) (unh : nat -> bool) (tr : list tev) (o : tout) : bool :=
+  match o with
+  | TAnswered j t =>
+      match last tr (ENone 0) with
+      | EAttempt _ i KOk RxFull true te => Nat.eqb i j && (te =? t) && Nat.ltb j n && negb (unh j)
+      | _ => false
+      end &&
+      forallb (fun e => match e with EAttempt _ _ _ _ ok _ => negb ok | _ => true end) (removelast tr)
+  | T502 t =>
+      forallb (fun e => match e with EAttempt _ _ _ _ ok _ => negb ok | _ => true end) tr &&
+      match last tr (ENone 0) with
+      | EAttempt _ _ _ _ _ te => te =? t
+      | ENone t' | ERefused t' _ => t' =? t
+      end
+  | THang => false
+  end.
+
+(* hypotheses of C05_retry_reaches_healthy, as a boolean predicate of the configuration *)
+Definition count_refuse (l : list astep) : nat := length (filter (fun a => is_refuse (ak a)) l).
+Definition all_ok (s : script) : bool := forallb (fun a => is_ok (ak a)) (spre s) && is_ok (ak (sdflt s)).
+Definition bad_host (unh : nat -> bool) (scr : nat -> script) (g i : nat) : bool :=
+  negb (Nat.eqb i g) && negb (unh i) && negb (all_ok (scr i)).
+Definition nbad (n : nat) unh scr g : nat := length (filter (bad_host unh scr g) (seq 0 n)).
+Definition nrefuse (n : nat) (scr : nat -> script) : nat :=
+  list_sum (map (fun i => count_refuse (spre (scr i))) (seq 0 n)).
+(* iterations that can be wasted before a good host must be reached: every other host that can
+   fail needs max_fails failures to be marked down, plus the scripted acquireConn refusals *)
+Definition waste (c : tcfg) unh scr g : N :=
+  t_mf c * N.of_nat (nbad (t_n c) unh scr g) + N.of_nat (nrefuse (t_n c) scr).
+Definition durs_le (n : nat) (scr : nat -> script) (dmax : N) : bool :=
+  forallb (fun i => forallb (fun a => adur a <=? dmax) (spre (scr i)) && (adur (sdflt (scr i)) <=? dmax))
+          (seq 0 n).
+Definition reach_hyp (c : tcfg) unh scr (g : nat) (dmax : N) : bool :=
+  let W := waste c unh scr g in
+  Nat.ltb g (t_n c) && negb (unh g) && all_ok (scr g)
+  && forallb (fun i => negb (is_refuse (ak (sdflt (scr i))))) (seq 0 (t_n c))
+  && durs_le (t_n c) scr dmax
+  && (1 <=? t_mf c)
+  (* failures recorded during the request do not expire before the good host is reached *)
+  && (W * (t_ti c + dmax) <? t_ft c)
+  (* the budget covers the wasted iterations: the W-th one is judged at (W-1) sleeps + W forwards *)
+  && ((W =? 0) || ((W - 1) * t_ti c + W * dmax <? t_td c)).
+Definition never_ok (n : nat) (scr : nat -> script) : bool :=
+  forallb (fun i => forallb (fun a => negb (is_ok (ak a))) (spre (scr i)) && negb (is_ok (ak (sdflt (scr i)))))
+          (seq 0 n).
+
 (* ---- cases for the correspondence check ---- *)
 Definition mk_host (u : bool) (f c m : Z) : host :=
   {| unhealthy := u; fails := f; conns := c; maxconns := m |}.
@@ -176,7 +356,15 @@ Inductive case :=
    (true = this host fails every attempt), fuel, observed trace of chosen hosts and final
    answered host (None = 502), every attempt got the complete body? *)
 | CRetry (p : pol) (base : list bool) (failing : list bool) (obs_trace : list nat)
-         (obs_final : option nat) (bodies_complete : bool).
+         (obs_final : option nat) (bodies_complete : bool)
+(* timed retry loop through the real Proxy.ServeHTTP with a fault-scripted transport per host:
+   policy, configuration in ticks, Unhealthy flags, fault script per host, interference table
+   (iteration -> host -> made unavailable for that Select), expiry times of the failures other
+   requests have recorded on each host before this one starts, observed events and final status *)
+(* m consecutive Selects of one RoundRobin whose counter was set to robin (also right below 2^32) *)
+| CRRSeq (robin : N) (av : list bool) (obs : list (option nat))
+| CRetryT (p : pol) (c : tcfg) (unhl : list bool) (scripts : list script) (envl : list (list bool))
+          (fx0l : list (list N)) (obs : list tev) (obs_out : tout).
 
 Definition pol_select (p : pol) (mf : Z) (pool : list host) : option (option nat) :=
   let av := avail_vec mf pool in
@@ -203,6 +391,59 @@ Definition sel_of (p : pol) : N -> list bool -> option nat * N :=
 
 Fixpoint NoDup_b (l : list nat) : bool :=
   match l with [] => true | x :: r => negb (existsb (Nat.eqb x) r) && NoDup_b r end.
+
+
+(* --- helpers of the timed retry cases --- *)
+Definition akind_eqb (a b : akind) : bool :=
+  match a, b with KOk, KOk | KFailBefore, KFailBefore | KFailAfter, KFailAfter | KRefuse, KRefuse => true
+  | _, _ => false end.
+Definition rxk_eqb (a b : rxk) : bool :=
+  match a, b with RxNotRead, RxNotRead | RxFull, RxFull | RxClosed, RxClosed | RxBad, RxBad => true
+  | _, _ => false end.
+Definition tev_eqb (a b : tev) : bool :=
+  match a, b with
+  | ENone t, ENone t' => t =? t'
+  | ERefused t i, ERefused t' i' => (t =? t') && Nat.eqb i i'
+  | EAttempt t i k rx ok te, EAttempt t' i' k' rx' ok' te' =>
+      (t =? t') && Nat.eqb i i' && akind_eqb k k' && rxk_eqb rx rx' && Bool.eqb ok ok' && (te =? te')
+  | _, _ => false
+  end.
+Definition tout_eqb (a b : tout) : bool :=
+  match a, b with
+  | TAnswered i t, TAnswered i' t' => Nat.eqb i i' && (t =? t')
+  | T502 t, T502 t' => t =? t'
+  | THang, THang => true
+  | _, _ => false
+  end.
+(* the observed trace follows the fault scripts and the clock only moves forward *)
+Fixpoint trace_wf (scr : nat -> script) (cnt : nat -> nat) (last_t : N) (tr : list tev) : bool :=
+  match tr with
+  | [] => true
+  | ENone t :: r => (last_t <=? t) && trace_wf scr cnt t r
+  | ERefused t i :: r =>
+      (last_t <=? t) && is_refuse (ak (script_at (scr i) (cnt i))) &&
+      trace_wf scr (upd cnt i (Datatypes.S (cnt i))) t r
+  | EAttempt t i k rx ok te :: r =>
+      let a := script_at (scr i) (cnt i) in
+      (last_t <=? t) && akind_eqb k (ak a) && negb (is_refuse k) && (te =? t + adur a) &&
+      Bool.eqb ok (att_ok k rx) &&
+      match k, rx with KFailBefore, RxNotRead => true | KFailBefore, _ => false | _, RxNotRead => false | _, _ => true end &&
+      trace_wf scr (upd cnt i (Datatypes.S (cnt i))) te r
+  end.
+(* Select found no host only when, by the books of this request, none was available *)
+Fixpoint none_ok (n : nat) (mf ft : N) (unh : nat -> bool) (env : nat -> nat -> bool)
+         (it : nat) (acc : nat -> list N) (tr : list tev) : bool :=
+  match tr with
+  | [] => true
+  | e :: r =>
+      match e with
+      | ENone t => forallb (fun i => unh i || env it i || (mf <=? live t (acc i))) (seq 0 n)
+      | _ => true
+      end && none_ok n mf ft unh env (Datatypes.S it) (ev_fail_rec ft acc e) r
+  end.
+Definition dmax_of (n : nat) (scr : nat -> script) : N :=
+  fold_left N.max (flat_map (fun i => adur (sdflt (scr i)) :: map adur (spre (scr i))) (seq 0 n)) 0.
+Definition is_answered (o : tout) : bool := match o with TAnswered _ _ => true | _ => false end.
 
 Definition judge (c : case) : N :=
   match c with
@@ -249,5 +490,57 @@ Definition judge (c : case) : N :=
         end &&
         (* every attempt went to an available host not yet failed in this request *)
         NoDup_b obs_trace && forallb (fun i => nth i base false) obs_trace in
+      verdict agree spec
+  | CRRSeq robin av obs =>
+      let n := length av in
+      let m := length obs in
+      let any := existsb (fun b => b) av in
+      let all := forallb (fun b => b) av in
+      let nones := length (filter (fun o => match o with None => true | _ => false end) obs) in
+      let nowrap := robin + N.of_nat (m * n) <? U32 in
+      let count j := length (filter (fun o => opt_nat_eqb o (Some j)) obs) in
+      let k := Nat.div m n in
+      let agree := list_beq opt_nat_eqb (rr_run av robin m) obs in
+      let spec :=
+        (* never an unavailable host *)
+        forallb (fun o => match o with Some i => nth i av false | None => true end) obs &&
+        (* a host whenever one is available *)
+        (negb any || Nat.eqb nones 0) &&
+        (* evenness: k times each over k*n selections with all hosts up *)
+        (negb (all && Nat.ltb 0 n && Nat.eqb (k * n) m) ||
+         forallb (fun j => Nat.eqb (count j) k) (seq 0 n)) in
+      verdict agree spec
+  | CRetryT p c unhl scripts envl fx0l obs obs_out =>
+      let n := t_n c in
+      let unh := fun i => nth i unhl true in
+      let scr := fun i => nth i scripts (mk_script [] (mk_astep KFailBefore 0)) in
+      let env := fun it i => nth i (nth it envl []) false in
+      let det := match p with PFirst | PRoundRobin _ | PHash _ | PHeaderValue _ => true | _ => false end in
+      let st0 := match p with PRoundRobin r => r | _ => 0 end in
+      let fuel := (N.to_nat (t_td c / t_ti c) + 3)%nat in
+      let fx0 := fun i => nth i fx0l [] in
+      let '(out, tr) := runT N (sel_of p) c unh scr env fuel 0 fx0 (fun _ => 0%nat) st0 true 0 in
+      let agree := negb det || (list_beq tev_eqb tr obs && tout_eqb out obs_out) in
+      let dmax := dmax_of n scr in
+      let env_clear g := forallb (fun row => negb (nth g row false)) envl in
+      let spec :=
+        trace_wf scr (fun _ => 0%nat) 0 obs &&
+        (* failed hosts are skipped until their failure expires; Select finds a host whenever one is available *)
+        skip_ok (t_mf c) (t_ft c) fx0 obs &&
+        none_ok n (t_mf c) (t_ft c) unh env 0 fx0 obs &&
+        (* every attempt receives the complete original body when it is buffered *)
+        (* ("with retries enabled (non-zero try_duration and fail_timeout) ... every attempt receiving
+           the complete original body": also demanded of the single-host pool, which is not buffered) *)
+        (negb (negb (t_hasbody c) || t_buf c || (negb (t_td c =? 0) && negb (t_ft c =? 0))) || bodies_ok obs) &&
+        first_attempt_ok obs &&
+        (* 200 only from a successful forward to a host that is not unhealthy, 502 only after failures *)
+        answered_ok n unh obs obs_out &&
+        (* a healthy backend exists and the budget covers the others => answered *)
+        (negb (existsb (fun g => reach_hyp c unh scr g dmax && env_clear g && (live 0 (fx0 g) <? t_mf c)) (seq 0 n)) ||
+         is_answered obs_out) &&
+        (* 502 only once the duration is spent; and when nobody can succeed, 502 within the bound *)
+        match obs_out with T502 t => t_td c <=? t | THang => false | TAnswered _ _ => true end &&
+        (negb (never_ok n scr && (0 <? t_ti c)) ||
+         match obs_out with T502 t => t <? t_td c + t_ti c + dmax | _ => false end) in
       verdict agree spec
   end.
